@@ -114,6 +114,7 @@ struct Case {
     sched: Vec<usize>,
     niter: usize,
     xml: String,
+    cont: bool,
 }
 
 fn parse_inval(s: &str) -> InputValue {
@@ -202,6 +203,7 @@ fn read_cases(text: &str) -> Vec<Case> {
             "seed" => cur.seed = f[1].parse().unwrap(),
             "sched" => cur.sched = f[1..].iter().map(|x| x.parse().unwrap()).collect(),
             "niter" => cur.niter = f[1].parse().unwrap(),
+            "cont" => cur.cont = f[1] == "1",
             "end" => cases.push(cur.clone()),
             _ => {}
         }
@@ -653,9 +655,14 @@ fn run_dynamic<D: TestDriver<Error = DrvError>>(
                         }
                         Ok(Some(Err(e))) => {
                             flush_calls(sh, &mut local);
-                            out(&mut local, &format!("ITEM err {}", iteration_err_s(&e, |d: &DrvError| d.0)));
-                            out(&mut local, "END err");
-                            break;
+                            let es = iteration_err_s(&e, |d: &DrvError| d.0);
+                            out(&mut local, &format!("ITEM err {es}"));
+                            // the caller may go on after an IO error (not after an evaluation error:
+                            // what the statement iterator does after one is outside the properties)
+                            if !c.cont || es.contains("ExprError") {
+                                out(&mut local, "END err");
+                                break;
+                            }
                         }
                         Ok(Some(Ok(row))) => {
                             flush_calls(sh, &mut local);
